@@ -5,8 +5,10 @@ from lib import observe_call
 
 GEN = ["EstructParams", "Cp037", "TextCodec"]
 RULE = ("complete enumeration of the finite space {13 USAGE spellings} x {signed, unsigned} x {(m,n) | 1<=m+n<=18} = 4914 configurations, each with "
-        "eight reports (calcsize, decoder acceptance of that width, schema maxLength/minLength, Location size, record end, Struct.calcsize, "
-        "TextUnpacker.calcsize), pictures printed alternately with and without repeat notation; plus X(k)/A(k) for k<=40. "
+        "nine reports (calcsize, decoder acceptance of that width, schema maxLength/minLength, Location size, record end, Struct.calcsize, "
+        "TextUnpacker.calcsize, and the lrecl that ONE long-lived COBOL_EBCDIC_File workbook - opened once for the run, a new sheet schema bound "
+        "for every configuration - computes), pictures printed alternately with and without repeat notation; every third configuration places "
+        "the item inside a group that carries a USAGE clause of its own (the item's own clauses decide, here as everywhere); plus X(k)/A(k) for k<=40. "
         "Non-trivial = all; distinct = distinct case lines.")
 TRIVIAL_BRANCHES = []
 ASSUMPTIONS = ["struct.calcsize('h'/'i'/'q'/'f'/'d') = 2/4/8/4/8 (native sizes on this platform)",
@@ -45,20 +47,55 @@ _UNP = None
 _N = [0]
 
 
-def schema_reports(pic_text, usage_name):
-    """maxLength, minLength, location size, record end, Struct.calcsize, TextUnpacker.calcsize"""
+_WB = {}
+
+
+def workbook():
+    """ONE COBOL_EBCDIC_File for the whole run, on an empty scratch file, opened without an lrecl: every configuration binds
+    its schema to a sheet of this workbook and reads the record length the sheet computed"""
+    if "wb" not in _WB:
+        import atexit, os, tempfile
+        from pathlib import Path
+        from stingray.workbook import COBOL_EBCDIC_File
+        fd, path = tempfile.mkstemp(suffix=".data")
+        os.close(fd)
+        _WB["path"] = path
+        _WB["wb"] = COBOL_EBCDIC_File(Path(path))
+        def done():
+            try:
+                _WB["wb"].close()
+            except BaseException:
+                pass
+            os.unlink(path)
+        atexit.register(done)
+    return _WB["wb"]
+
+
+def schema_reports(pic_text, usage_name, in_group=0):
+    """maxLength, minLength, location size, record end, Struct.calcsize, TextUnpacker.calcsize, workbook sheet lrecl"""
     from stingray.cobol_parser import schema_iter
     from stingray.schema_instance import SchemaMaker, EBCDIC, Struct, TextUnpacker, LocationMaker
     # data names rotate through a pool that includes names beginning with a USAGE keyword (explicit USAGE must win)
     _N[0] += 1
     FLD = NAMES[_N[0] % len(NAMES)]
+    if usage_name is None:
+        # without a USAGE clause of its own a name that begins with a USAGE word decides the usage (finding K-name-contains-usage)
+        FLD = ["FLD", "AMOUNT"][_N[0] % 2]
     h = _N[0] % 12
     pic_kw = ["PIC", "PICTURE", "PIC IS", "PICTURE IS"][h % 4]
     usage_kw = ["USAGE", "USAGE IS", ""][h // 4]
     # the record of interest is the SECOND 01; the first declares the same data name with another picture
-    text = ("       01  PREV.\n" f"           05  {FLD} PIC X(7).\n"
-            "       01  REC.\n" f"           05  {FLD}\n"
-            f"               {pic_kw} {pic_text}\n               {usage_kw} {usage_name}.\n")
+    usage_line = "" if usage_name is None else f"               {usage_kw} {usage_name}"
+    if in_group:
+        # the item sits in a group that has a USAGE clause of its own, different from the item's
+        gu = ["COMP-3", "BINARY", "DISPLAY", "COMP"][(_N[0] // 3) % 4]
+        if gu == usage_name:
+            gu = "PACKED-DECIMAL"
+        body = (f"           05  GRP USAGE {gu}.\n" f"               10  {FLD}\n"
+                f"               {pic_kw} {pic_text}\n" + (usage_line + ".\n" if usage_line else "               .\n"))
+    else:
+        body = (f"           05  {FLD}\n" f"               {pic_kw} {pic_text}\n" + (usage_line + ".\n" if usage_line else "               .\n"))
+    text = ("       01  PREV.\n" f"           05  {FLD} PIC X(7).\n" "       01  REC.\n" + body)
     state = {}
     def load():
         (_prev, js) = list(schema_iter(io.StringIO(text)))
@@ -67,9 +104,9 @@ def schema_reports(pic_text, usage_name):
         return 0
     r = observe_call(load, lambda v: v)
     if r[0] != 0:
-        return [r] * 6
+        return [r] * 7
     js, schema = state["js"], state["schema"]
-    fld = js["properties"][FLD]
+    fld = js["properties"]["GRP"]["properties"][FLD] if in_group else js["properties"][FLD]
     out = [rep(lambda: fld["maxLength"]), rep(lambda: fld["minLength"])]
     # ONE long-lived unpacker for the whole run (as a long-lived workbook has): per-unpacker caches that
     # outlive a schema show up as widths of unrelated fields
@@ -79,12 +116,19 @@ def schema_reports(pic_text, usage_name):
     unp = _UNP
     def loc():
         state["loc"] = LocationMaker(unp, schema).from_schema()
-        return state["loc"].properties[FLD].size
+        top = state["loc"].properties["GRP"] if in_group else state["loc"]
+        return top.properties[FLD].size
     out.append(rep(loc))
     out.append(rep(lambda: state["loc"].end))
-    fschema = schema.properties[FLD]
+    fschema = schema.properties["GRP"].properties[FLD] if in_group else schema.properties[FLD]
     out.append(rep(lambda: Struct().calcsize(fschema)))
     out.append(rep(lambda: TextUnpacker().calcsize(fschema)))
+    def sheet_lrecl():
+        wb = workbook()
+        sheet = wb.sheet("")
+        sheet.set_schema(schema)
+        return sheet.lrecl
+    out.append(rep(sheet_lrecl))
     return out
 
 
@@ -99,12 +143,15 @@ def observe(ctx, c):
             dec = observe_call(lambda: E.unpack(cl, canonical(u, calc[1])), lambda v: 1)
         else:
             dec = [2]
-        return [1, u, s, m, n, calc, dec] + schema_reports(pic, SPELLINGS[u])
+        grp = 1 if (u * 3 + m + 2 * n + int(s)) % 3 == 0 else 0
+        # a DISPLAY item may leave its USAGE clause out (every fourth of them does)
+        own = None if (u == DISPLAY and (m + n) % 4 == 1) else SPELLINGS[u]
+        return [1, u, s, m, n, calc, dec] + schema_reports(pic, own, grp)
     k, ch = c["kk"], c["ch"]
     pic = f"{ch}({k})" if k % 2 else ch * k
     cl = f"PIC {pic}"
     r = schema_reports(pic, "DISPLAY")
-    return [2, k, rep(lambda: E.calcsize(cl)), r[0], r[2], r[3], r[5]]
+    return [2, k, rep(lambda: E.calcsize(cl)), r[0], r[2], r[3], r[5], r[6]]
 
 
 def describe(c):
